@@ -12,7 +12,7 @@ def classify_crash(cr):
 
 SPEC = {
     'id': 'C15',
-    'lean_modules': ['AITB.Props.C15', 'AITB.Props.C15Gen', 'AITB.Props.C15Top', 'AITB.Props.C15Mdp'],
+    'lean_modules': ['AITB.Props.C15', 'AITB.Props.C15Gen', 'AITB.Props.C15Top', 'AITB.Props.C15Mdp', 'AITB.Props.C15Cex', 'AITB.Props.C15Flat'],
     'theorems': [
         'AITB.FLP.weak_duality_sound',
         'AITB.FLP.optimalPair_sound',
@@ -48,6 +48,13 @@ SPEC = {
         'AITB.FLP.expect_linear',
         'AITB.FLP.gform_eq_backup',
         'AITB.FLP.mdpLP_equiv_bellman',
+        'AITB.FLP.mdp_perFinal_counterexample',
+        'AITB.FLP.flp_const_without_basis_counterexample',
+        'AITB.FLP.flpFlatRows_sat_iff',
+        'AITB.FLP.factoredLP_same_feasible',
+        'AITB.FLP.mdpFlatRows_sat_iff',
+        'AITB.FLP.mdpLP_same_feasible',
+        'AITB.FLP.mdpLP_sound_flat',
     ],
     'harness': 'harness/c15.cpp',
     # the calls LpSolveWrapper.cpp makes into lp_solve are recorded at link time (the library is not modified)
